@@ -9,21 +9,21 @@ COMMON_ASSUMPTIONS = [
 P = {}
 
 P['C01'] = {
-    'units': ['ring'],
+    'units': ['ring', 'stream'],
     'technique': 'Verus function contracts + representation invariant on the real circular_buffer.rs functions (mechanically extracted each run)',
     'level_text': 'Deductive proof for all states, sizes and operation arguments (no bound): wf is established by Buffer::new and preserved by produce/consume; window ranges, refusal of oversize commit/consume, readable+writable==capacity and the FIFO/partition/stability lemmas are postconditions or lemmas over those contracts.',
     'level_note': 'Trusted: mmap aliasing (Circ::new/full_buffer, unsafe), Mutex atomicity (lock code dropped by rule X-LOCK), std BTreeMap/sort shims; stream.rs wrappers not under contract.',
     'assumptions': [
         'A-ALIAS: Circ::new / Circ::full_buffer (mmap double mapping, unsafe slice construction) are trusted: window element i is ring[(start+i) % cap]',
         'X-LOCK: each Mutex critical section is atomic; lock/condvar/Arc reference counting are dropped by the extraction (no concurrency claim)',
-        'stream.rs wrappers (ReadStream::read_buf, WriteStream::write_buf, new_stream) only delegate to Buffer and are not under contract',
+        'stream.rs: ReadStream::read_buf / WriteStream::write_buf are under contract as pure delegations (unit stream); new_stream, eof, wait_for_* are not',
     ],
     'not_covered': ['Circ::new, Circ::full_buffer, Map::* (unsafe / FFI)', 'Buffer::wait_for_read / wait_for_write (condvar)',
                     'BufferReader::slice/iter/consume, BufferWriter::slice/fill_from_iter/produce (delegations through Arc / &mut slices)',
-                    'src/stream.rs'],
+                    'src/stream.rs: new_stream, eof(), wait_for_read/write, NC streams'],
 }
 P['C02'] = {
-    'units': ['ring'],
+    'units': ['ring', 'stream'],
     'technique': 'Verus function contracts on Buffer::produce/consume/read_buf over an abstract tag map (BTreeMap shim), inductive loop invariants',
     'level_text': 'Deductive proof for all ring offsets, commit/consume sizes and any number of tags per sample: produce stores each tag on its sample in commit order, consume removes exactly the tags of the consumed samples, read_buf returns every buffered tag exactly once at its window-relative position.',
     'level_note': 'Trusted: BTreeMap range/iteration/entry semantics (TagMap shim), stable sort shim, Tag payload opaque, Mutex atomicity.',
@@ -32,7 +32,7 @@ P['C02'] = {
         'sort_tags_by_pos shim = std stable sort_by_key; Tag payload (key, value) is an opaque identity preserved by Tag::new(.., t.key(), t.val().clone())',
         'X-LOCK as for C01',
     ],
-    'not_covered': ['NCReadStream / NCWriteStream drop tags by design (TODO in source)', 'src/stream.rs wrappers'],
+    'not_covered': ['NCReadStream / NCWriteStream drop tags by design (TODO in source)'],
 }
 
 P['C13'] = {
@@ -68,7 +68,7 @@ _BLOCK_ASSUME = [
 _NOT_COVERED_BLOCKS = [
     'derive-generated sync work() (Tee, Add, Xor, AddConst, XorConst, NrziDecode, Descrambler, SinglePoleIirFilter, QuadratureDemod, BinarySlicer, convert ...): only BOUNDED drip-feed stand-ins (bx:sync, bx:dsp), never counted as proved; their per-sample kernels are under contract in unit kernels / Kani',
     'FftFilterFloat::work (drives two private streams itself): bounded only (bx:dsp)',
-    'Il2pDeframer::work: bounded only (bx:il2p); HdlcDeframer: per-bit rules proved (C13) but chunk independence as a whole-stream function is not claimed',
+    'HdlcDeframer: per-bit rules proved (C13) but chunk independence as a whole-stream function is not claimed; IL2P header codec (LFSR, RS stripping, field parsing) is a trusted predicate',
     'ToText, PduWriter, VectorSink, SignalSource, DebugSink and the other sinks/sources not listed under functions',
     'Wpcr::process_one (FFT planner + iterator pipeline); only its callee find_best_bin and Midpointer::work are under contract',
     'the VALUES computed by floating-point code (C11 n/a): float operations are uninterpreted deterministic functions',
@@ -77,14 +77,14 @@ _NOT_COVERED_BLOCKS = [
 _BU = ['skip', 'delay', 'vsrc', 'v2s', 'consts', 'resampler', 'rtlsdr', 's2pdu', 'hilbert', 'fftstream', 'fftfilter']
 _FIR = ['fir']
 P['C08'] = {
-    'units': list(_BU) + _FIR + ['zc', 'symsync', 'bx:sync', 'bx:dsp', 'bx:il2p'],
+    'units': list(_BU) + _FIR + ['zc', 'symsync', 'il2p', 'bx:sync', 'bx:dsp'],
     'technique': 'Verus: each covered work() proved to preserve out.produced == F(in.consumed) under a stream-API contract with a universally quantified environment (any window lengths)',
-    'level_text': 'Deductive proof, no bound, for the blocks listed under functions (Skip, Delay, VectorSource, VecToStream, ConstantSource, NullSink, RationalResampler, FirFilter, RtlSdrDecode, StreamToPdu, Hilbert, FftStream, FftFilter, ZeroCrossing, SymbolSync): the invariant (state, dst.produced) == F(src.consumed) holds after every work() call for every read-window extension and every write-window length, hence for every chunking, every amount of free output space (incl. full) and every wrap position; no panic site in those bodies is reachable. Float arithmetic inside F is uninterpreted. Sync blocks generated by the derive macro, FftFilterFloat and Il2pDeframer are covered by BOUNDED differential runs only (bit-identical output of a roomy run and an adversarial drip-fed run of the same millions of samples), labelled bounded.',
+    'level_text': 'Deductive proof, no bound, for the blocks listed under functions (Skip, Delay, VectorSource, VecToStream, ConstantSource, NullSink, RationalResampler, FirFilter, RtlSdrDecode, StreamToPdu, Hilbert, FftStream, FftFilter, ZeroCrossing, SymbolSync, Il2pDeframer): the invariant (state, dst.produced) == F(src.consumed) holds after every work() call for every read-window extension and every write-window length, hence for every chunking, every amount of free output space (incl. full) and every wrap position; no panic site in those bodies is reachable. Float arithmetic inside F is uninterpreted. Sync blocks generated by the derive macro and FftFilterFloat are covered by BOUNDED differential runs only (bit-identical output of a roomy run and an adversarial drip-fed run of the same millions of samples), labelled bounded.',
     'level_note': 'Subset; see coverage.not_covered. Trusted: stream-API contract (stream_prelude.vx), std shims, determinism of float operations. Where F is spelled out (clock recovery step, PDU rule, resampler rule, overlap-add) a behaviour change that keeps chunk independence still fails the contract and must be accompanied by a contract update.',
     'not_covered': _NOT_COVERED_BLOCKS, 'assumptions': _BLOCK_ASSUME,
 }
 P['C09'] = {
-    'units': list(_BU) + _FIR + ['zc', 'symsync', 'sigmf', 'hdlc', 'fsrc', 'fsink', 'tcp', 'au', 'auenc', 'bx:sync', 'bx:dsp'],
+    'units': list(_BU) + _FIR + ['zc', 'symsync', 'il2p', 'sigmf', 'hdlc', 'fsrc', 'fsink', 'tcp', 'au', 'auenc', 'bx:sync', 'bx:dsp'],
     'technique': 'Verus: call-site preconditions of consume/produce (n <= window, window belongs to the stream, not stale) and verdict postconditions on each covered work()',
     'level_text': 'Deductive proof for the covered work() bodies: every consume/produce call site stays within its window and uses a window of that stream; WaitForStream(s, need) is returned only when stream s offered fewer than need in this call (so the wait names the blocking stream and asks for what is missing); Again only from a call that made progress; an empty input yields a wait on the input; EOF only when the data is exhausted. No window escapes work() (syntactic check of rule X-WIN). Bounded only: wait truthfulness of sync blocks by timing (bx:sync), Again-means-progress of the float blocks (bx:dsp).',
     'level_note': 'Subset only. "holds no window after return" is a syntactic check of the extractor, stated as such.',
@@ -105,11 +105,11 @@ P['C12'] = {
     'not_covered': _NOT_COVERED_BLOCKS, 'assumptions': _BLOCK_ASSUME,
 }
 P['C15'] = {
-    'units': ['skip', 'delay', 'v2s', 'fir', 'resampler', 'rtlsdr', 's2pdu', 'hilbert', 'fftstream', 'fftfilter', 'zc', 'symsync', 'sigmf', 'wpcr', 'hdlc', 'tcp', 'au', 'auenc', 'kani:lfsr', 'kani:hdlc', 'kani:codecs', 'bx:dsp', 'bx:il2p'],
+    'units': ['skip', 'delay', 'v2s', 'fir', 'resampler', 'rtlsdr', 's2pdu', 'hilbert', 'fftstream', 'fftfilter', 'zc', 'symsync', 'sigmf', 'wpcr', 'hdlc', 'tcp', 'au', 'auenc', 'il2p', 'kani:lfsr', 'kani:hdlc', 'kani:codecs', 'bx:dsp'],
     'technique': 'Verus panic-freedom obligations (refuse/overflow/bounds/callee preconditions unreachable for arbitrary sample values) + Kani totality harnesses over all input bytes',
-    'level_text': "Deductive proof for the covered bodies: no panic site (slice index, unwrap, overflow, division, assert where it is an obligation) is reachable for any sample / byte / burst / file content: the block bodies listed under functions, AuDecode header arithmetic, HdlcDeframer::update_state, SigMFSource::work (truncated and empty data), wpcr find_best_bin and Midpointer::work (every burst incl. empty, one element, constant, NaN), ZeroCrossing / SymbolSync index arithmetic on both outputs; Kani: bits2byte, calc_crc (lengths 1..2, thorough ..4), the codecs' parse for all bytes; the two LFSR steps for every input byte (2 known findings). Bounded only: float blocks (bx:dsp), Il2pDeframer on bit streams (bx:il2p).",
+    'level_text': "Deductive proof for the covered bodies: no panic site (slice index, unwrap, overflow, division, assert where it is an obligation) is reachable for any sample / byte / burst / file content: the block bodies listed under functions, AuDecode header arithmetic, HdlcDeframer::update_state, SigMFSource::work (truncated and empty data), wpcr find_best_bin and Midpointer::work (every burst incl. empty, one element, constant, NaN), ZeroCrossing / SymbolSync index arithmetic on both outputs; Kani: bits2byte, calc_crc (lengths 1..2, thorough ..4), the codecs' parse for all bytes; the two LFSR steps for every input byte (2 known findings). Il2pDeframer::work index arithmetic and its two assert sites. Bounded only: float blocks (bx:dsp).",
     'level_note': "Subset only: SymbolSync's two assert!s on float ordering are treated as refusals (float reasoning, not decided), Wpcr::process_one and SigMF metadata / archive parsing are not under contract.",
-    'not_covered': ['Wpcr::process_one', 'SigMF metadata / tar parsing (serde_json, tar)', 'SymbolSync assert!(stream_pos > last_sym_boundary_pos) and assert!(t > 0.0): float ordering', 'sort_by(partial_cmp().unwrap()) inside Midpointer (no NaN can be present when the mean is not NaN: float argument)', 'Il2pDeframer header parser (bounded only)', 'ToText, PduWriter'], 'assumptions': _BLOCK_ASSUME,
+    'not_covered': ['Wpcr::process_one', 'SigMF metadata / tar parsing (serde_json, tar)', 'SymbolSync assert!(stream_pos > last_sym_boundary_pos) and assert!(t > 0.0): float ordering', 'sort_by(partial_cmp().unwrap()) inside Midpointer (no NaN can be present when the mean is not NaN: float argument)', 'IL2P Header::parse / decode_callsign / describe (String building): trusted callee', 'ToText, PduWriter'], 'assumptions': _BLOCK_ASSUME,
 }
 
 P['C17'] = {
